@@ -116,8 +116,17 @@ def swhid_of_git_repo(path) -> CoreSWHID:
 
     repo = dulwich.repo.Repo(path)
 
+    try:
+        refs = repo.refs.as_dict()
+        symrefs = repo.refs.get_symrefs()
+    except Exception as e:
+        # e.g. dulwich raises StopIteration on an empty packed-refs file
+        raise click.BadParameter(
+            "cannot read the references of git repository %r: %r" % (path, e)
+        )
+
     branches: Dict[bytes, Optional[Dict]] = {}
-    for ref, target in repo.refs.as_dict().items():
+    for ref, target in refs.items():
         obj = repo[target]
         if obj:
             branches[ref] = {
@@ -127,7 +136,7 @@ def swhid_of_git_repo(path) -> CoreSWHID:
         else:
             branches[ref] = None
 
-    for ref, target in repo.refs.get_symrefs().items():
+    for ref, target in symrefs.items():
         branches[ref] = {
             "target": target,
             "target_type": "alias",
@@ -305,13 +314,13 @@ def identify(
             msg = f"{swhid}\t{path}" if show_filename else f"{swhid}"
             click.echo(msg)
     else:
-        results = zip(
-            objects,
-            map(
-                partial(identify_object, obj_type, follow_symlinks, exclude_patterns),
-                objects,
-            ),
+        # not zip(objects, map(...)): zip and map take a StopIteration raised while
+        # identifying an object for the end of the results, and silently drop that
+        # object and all the following ones
+        identify_one = partial(
+            identify_object, obj_type, follow_symlinks, exclude_patterns
         )
+        results = ((obj, identify_one(obj)) for obj in objects)
 
         if verify:
             swhid = next(results)[1]
